@@ -11,7 +11,7 @@ NA = {
  "C16": "pure string function judged by a deterministic external shell",
  "C17": "pure string function",
 }
-PENDING = ["C02", "C03", "C05", "C15", "C18", "C20"]
+PENDING = ["C05", "C15", "C18", "C20"]
 SIM = "deterministic simulation: seeded search over schedules and faults on the mechanically rewritten real code, oracle over the recorded history, minimised replay file"
 CHECKS = {
  "C06": dict(world="laneworld", ref="5.1", tech=SIM + "; exactly-once ledger per task object, bounded liveness at simulator quiescence",
@@ -28,6 +28,10 @@ CHECKS = {
    text="1..3 writer tasks owning disjoint ranges (one toggling 0.0.0.0/0) and 1..3 reader tasks under seeded schedules with pre-emption at every instrumented memory access, crossing the list-to-map switch while readers run; the simulator's race detector decides 'no data races', an interval oracle over invoke/return stamps decides the consistency clause (deliberately weaker than linearizability, which the filter does not provide), and the final membership is compared with the sequential application of each writer's operations."),
  "C19": dict(world="progressworld", ref="5.5", tech=SIM + "; prefix-sum oracle over the recorded history of wrapped-writer calls and received values, stall detection at simulator quiescence",
    text="Seeded schedules of one writer task (0..8 Write/WriteString calls, then Close) and 1..2 consumers of four temperaments over a wrapped writer that writes short, fails or fails partially; Size() is compared with the wrapped writer's own tally after every call, a stalled Write shows as a blocked task at quiescence, received values must be non-decreasing prefix sums of completed writes, and Close must deliver the final total and close the channel."),
+ "C02": dict(world="logworld", ref="5.2", tech=SIM + "; instrumented destination writer (overlap, payload, faults), line-by-line differential against an isolated replay of the same code, happens-before race detection",
+   text="Seeded schedules of 1..4 simulated goroutines logging and deriving through shared loggers of all three handlers, with the simulator choosing which pooled buffer comes back (fresh, most recent, stale) and a destination that is slow, writes short or fails; the oracle over the writer's history requires no overlapping Write, exactly one Write per enabled record carrying exactly the line the same record gives when logged alone, nothing for records below the threshold, nothing else."),
+ "C03": dict(world="logworld", ref="5.2", tech=SIM + "; derivation-tree histories (sequential and concurrent), every line compared with an isolated replay of that logger's own chain and with the chain folded into call-site form",
+   text="Seeded derivation trees of up to 12 loggers built before and during the run (several children of derived parents, concurrent derivation from a shared parent), a probe record through every node at the end; each line must equal the line of a logger built alone from a fresh root by replaying only its own chain, and (source off) the line of an underived root given the chain folded into the call's attribute list."),
 }
 NOTE = "Trusted base: the simgo rewriter (chan/select/go -> simrt calls, import shims, in-place access instrumentation) preserves the semantics of the rewritten package; simrt's primitives conform to the Go spec and memory model (conformance suite with exact outcome sets and a two-sided race-detector self-test run in setup_cmd); the harness oracles. Sampling over bounded configurations, not proof."
 m = {
